@@ -35,6 +35,16 @@ def run_case(case, rng):
         sp = G.random_spec(rng, "proper", n_max=n_max, allow_implicit=False,
                            reward_scale=rng.choice([1.0, 1.0, 1.0, 30.0, 1000.0]))
     rep = rng.choice(["subclass", "quicktabular"])
+    if rng.random() < 0.15:
+        # None is a legal hashable action label for a planner (it only collides with the roll-out API's "no action")
+        universe = sp.action_universe()
+        old_a = rng.choice(universe)
+        ren = lambda a_: None if a_ == old_a else a_
+        sp.acts = {s_: tuple(ren(a_) for a_ in acts_) for s_, acts_ in sp.acts.items()}
+        sp.P = {(s_, ren(a_)): v for (s_, a_), v in sp.P.items()}
+        sp.kind = {(s_, ren(a_)): v for (s_, a_), v in sp.kind.items()}
+        sp.R = {(s_, ren(a_), t_): v for (s_, a_, t_), v in sp.R.items()}
+        sp.meta["none_action"] = True
     G.restrict_to_closure(sp, rng)
     sp.init = [(s, p) for s, p in sp.init if p > 0]
     mdp = Bd.build(sp, rep)
